@@ -43,25 +43,6 @@ def lab_name(l):
     return nm, taken, x
 
 
-def coord_slots(point, g):
-    """Flatten the decoded point aggregate into the read index feeding each coordinate
-    slot: G1 -> [x, y]; G2 -> [x.c0, x.c1, y.c0, y.c1]; plus the infinity flag value."""
-    def rd(v):
-        # ('try', ('mapped', ('from_repr', ('repr', k), ty), closure))
-        if isinstance(v, tuple) and v[0] == 'try' and v[1][0] == 'mapped' and v[1][1][0] == 'from_repr' and v[1][1][1][0] == 'repr':
-            return v[1][1][1][1], v[1][2], v[1][1][2]
-        return None
-    items = point.items
-    out = []
-    for c in items[:-1] if len(items) == 3 else items:
-        if isinstance(c, Agg) and c.kind and c.kind[0].endswith('fq2::Fq2'):
-            out.extend(rd(x) for x in c.items)
-        else:
-            out.append(rd(c))
-    inf = items[-1] if len(items) == 3 else None
-    return out, inf
-
-
 def fe_slots(v):
     """Flatten a coordinate value into the list of read indices feeding its Fq slots (G2: [c0, c1] per coordinate)."""
     if isinstance(v, tuple) and v and v[0] == 'fe':
